@@ -18,6 +18,7 @@ RULE = (
     "front of a data block must be the START of what follows, not the end "
     "of the block in front (referent identity and at_end are compared)."
     " Second module in the IR as in C01: its symbols, proxies and entry point must be unchanged."
+    " 8% of the modules are big-endian MIPS32 ELF (as in C01)."
 )
 ASSUMPTIONS = [
     "position = (section, byte offset counted over the section's original intervals in original order), so the end of one interval and the start of the next are the same place",
@@ -26,7 +27,8 @@ ASSUMPTIONS = [
 BUDGET = {"quick": (6000, 40), "thorough": (250000, 540)}
 REQUIRED_COUNTERS = ["applies", "labels_compared"]
 
-gen_case = rwbase.gen_case
+def gen_case(rng, tier, index):
+    return rwbase.gen_case(rng, tier, index, mips_p=0.08)
 
 
 def run_case(case):
